@@ -119,9 +119,14 @@ VARIANTS = [
     {"name": "P R3 table in a local before the writer loop", "file": SCHEMA, "expect": "silent",
      "old": "        for field_name, field in self._get_fields_dict(llsd_flavor=flavor).items():",
      "new": "        table = self._get_fields_dict(llsd_flavor=flavor)\n        for field_name, field in table.items():"},
-    {"name": "P R3 LLSD dispatcher key through a local", "file": INV, "expect": "silent",
-     "old": "                if inv_type.ID_ATTR in obj_dict:\n",
-     "new": "                id_key = inv_type.ID_ATTR\n                if id_key in obj_dict:\n"},
+    {"name": "P R3 LLSD dispatcher key renamed local", "file": INV, "expect": "silent",
+     "edits": [{"file": INV, "old": "                id_attr = inv_type.ID_ATTR\n", "new": "                id_key = inv_type.ID_ATTR\n"},
+               {"file": INV, "old": "                    id_attr = getattr(inv_type, \"ID_ATTR_AIS\", id_attr)\n",
+                "new": "                    id_key = getattr(inv_type, \"ID_ATTR_AIS\", id_key)\n"},
+               {"file": INV, "old": "                if id_attr in obj_dict:\n", "new": "                if id_key in obj_dict:\n"}]},
+    {"name": "R3 AIS dispatcher ignores ID_ATTR_AIS again (D24 reverted)", "file": INV, "expect": "C20.R3",
+     "old": "                    id_attr = getattr(inv_type, \"ID_ATTR_AIS\", id_attr)\n",
+     "new": "                    pass\n"},
     # ------------------------------------------------------------------ R4 breaking
     {"name": "R4 receiver unpacks S64 from a 4-byte window", "file": XFER, "expect": "C20.R4",
      "old": "TemplateDataPacker.unpack(packet_data[:4], MsgType.MVT_S32)",
